@@ -49,11 +49,23 @@ def known_cli_short_t(case, of):
     return None
 
 
+def known_noise_floor(case, of):
+    """the stopping criterion is unreachable: the f64 iteration ends in a limit cycle whose norm delta
+    (rounding noise amplified by alpha/(1-alpha) and by the slow convergence) stays above eps"""
+    if case.get("status") == "cap" and all(a.startswith("status:") for a in of) \
+            and int(case.get("an", "0")) * 100 >= 99 * int(case.get("ad", "1")) and int(case.get("epsexp", "0")) >= 12:
+        return ("PageRank::run(L1Norm(1e-12)) with alpha=0.99 never terminates on some graphs: f64 limit cycle with norm "
+                "delta above the threshold (witness: arc 1->0, weakly preferential, uniform preference: period-2 cycle "
+                "after 2129 iterations, norm delta 1.4013790128331026e-12; the rank vector itself is within 1e-14 of the "
+                "exact solution); the CLI has no default --max-iter, so `webgraph rank pagerank -a 0.99 --threshold 1e-12` hangs")
+    return None
+
+
 def run(ctx):
     quick = ctx["tier"] == "quick"
-    runs = [("small", ["--count", "1500" if quick else "20000", "--maxn", "10"], 180),
-            ("mid", ["--count", "300" if quick else "4000", "--maxn", "24"], 181),
-            ("large", ["--count", "60" if quick else "800", "--maxn", "60"], 182)]
+    runs = [("small", ["--count", "1500" if quick else "15000", "--maxn", "10"], 180),
+            ("mid", ["--count", "300" if quick else "3000", "--maxn", "24"], 181),
+            ("large", ["--count", "60" if quick else "600", "--maxn", "60"], 182)]
     rs = []
     for name, args, so in runs:
         r = codec.run_simple("C18", ctx, "prank", args, ORACLE, CORR, nontrivial=nontrivial, seed_offset=so,
@@ -68,6 +80,6 @@ def run(ctx):
                  "PageRank::run on a VecGraph (all cases), webgraph_cli::rank::pagerank::main on a BvGraph written to disk with ASCII "
                  "preference/rank files (1 in 10), webgraph_cli::rank::cli_main through the argument parser (1 in 200); "
                  "one PRNG; non-trivial = at least 2 nodes and 1 arc; distinct = different (graph, configuration)")
-    violations, known = codec.verdict("C18", r, known_matchers=[known_cli_short_t])
+    violations, known = codec.verdict("C18", r, known_matchers=[known_cli_short_t, known_noise_floor])
     r.update({"violations": violations, "known": known})
     return r
